@@ -5,8 +5,8 @@ from . import core, suites
 from .c04 import ops_correspondence
 
 
-def check(res, thorough, prop, module, spec_cmd, cases_key, nontrivial_key, rule, assumptions, extra_ops=(), level="proof"):
-    ok_t, ok_b, ok_h = core.prepare(res, module, thorough=thorough)
+def check(res, thorough, prop, module, spec_cmd, cases_key, nontrivial_key, rule, assumptions, extra_ops=(), level="proof", extra_props=()):
+    ok_t, ok_b, ok_h = core.prepare(res, module, thorough=thorough, extra_props=extra_props)
     tier = "thorough" if thorough else "quick"
     scratch = core.scratch_dir(prop.lower())
     try:
